@@ -129,6 +129,20 @@ func (c *localCache) Modify(ctx context.Context, name string, opts *Opts, dels [
 	}
 
 	for _, upd := range upds {
+		if opts.Store == cachepb.Store_INTENDED {
+			// The cache library is meant to replace the entry of the same path, owner and priority that
+			// carries an older timestamp, but never finds it. Remove it here, otherwise every superseded
+			// value of an intent remains in the intended store.
+			err = c.c.DeletePrefix(ctx, name, &cache.Opts{
+				Store:    getStore(opts.Store),
+				Path:     [][]string{upd.GetPath()},
+				Owner:    opts.Owner,
+				Priority: opts.Priority,
+			})
+			if err != nil {
+				return err
+			}
+		}
 		err = c.c.WriteValue(ctx, name, &cache.Opts{
 			Store:    getStore(opts.Store),
 			Path:     [][]string{upd.GetPath()},
